@@ -1107,6 +1107,72 @@ def o_nn_structure(mir, tier, seed):
     return dict(theory='Real; coordinates and segments opaque tokens; rstar bulk_load / nearest_neighbor and the point-segment distance uninterpreted', functions=['euclidean::distance::nearest_neighbour_distance', 'its two fold closures'], paths=npaths, status=st, info=info, model=None, replay=('polygon_distance', ''))
 
 
+@obligation('C07', 'multi_member_distance_is_min_over_members', 'every macro-generated Euclidean distance impl whose first operand is a MultiPoint / MultiLineString / MultiPolygon / GeometryCollection (40 impls found in the MIR, any second operand except the Geometry enum): the minimum over ALL members (0-3) of the member-to-operand distance, in iteration order, nothing else (the symmetric_distance_impl! instances among them forward once, operands exchanged); and every impl whose second operand is the Geometry enum (11 impls) forwards to the impl for the wrapped value with the operands in the same order, for each of the 10 variants [the nested distances uninterpreted, F::max_value() above all of them]')
+def o_multi_distance(mir, tier, seed):
+    T = RealTheory()
+    D = 'euclidean::distance::<impl at [^>]*>::distance'
+    multis = mir.find_all('geo', D, sig=r'_2: &geo_types::(MultiPoint|MultiLineString|MultiPolygon|GeometryCollection)<F>, _3: ')
+    multis = [f_ for f_ in multis if '_3: &geo_types::Geometry<F>)' not in f_.text.split(chr(10), 1)[0]]
+    enums = mir.find_all('geo', D, sig=r'_2: [^,]*, _3: &geo_types::Geometry<F>\)')
+    enums = [f_ for f_ in enums if '_2: &geo_types::Geometry<F>' not in f_.text.split(chr(10), 1)[0]]
+    bad, assume, npaths, nfn = [], [], 0, 0
+    if len(multis) < 30 or len(enums) < 8:
+        bad.append(z3.BoolVal(True))          # the impls were not found: do not pass silently
+    for k, fn in enumerate(multis):
+        is_gc = 'GeometryCollection<F>, _3' in fn.text.split('\n', 1)[0]
+        for n in (0, 1, 2, 3):
+            vals = {}
+
+            def dist(ip, d, vals=vals, k=k, n=n):
+                a_, b_ = deref(d[-2]), deref(d[-1])
+                key = (str(a_), str(b_))
+                return vals.setdefault(key, T.var('md_%d_%d_%d' % (k, n, len(vals))))
+            uf = {'re:<euclidean::Euclidean as (algorithm::)?line_measures::distance::Distance<.*>>::distance': dist,
+                  're:geo_types::GeometryCollection::<\\w+>::iter': lambda ip, d: __import__('mir2smt').SliceIter(deref(d[0])[0])}
+            ip = Interp(mir, T, EXTRA, uf)
+            members = [[('member', i)] for i in range(n)] if not is_gc else [('member', i) for i in range(n)]
+            g = [members]
+            outs = ip.call_fn(fn, [('e',), Ref(lambda g=g: g), Ref(lambda: ('other',))], z3.BoolVal(True))
+            npaths += len(outs)
+            keys = [(str(m_), str(('other',))) for m_ in members]
+            swapped = (str(('other',)), str(g))
+            if set(vals) == {swapped}:
+                # a symmetric_distance_impl! instance: forwards to the impl with the operands exchanged
+                bad.append(z3.Not(z3.Or([pc for pc, _ in outs])))
+                for pc, r in outs:
+                    bad.append(z3.And(pc, deref(r) != vals[swapped]))
+                continue
+            if set(vals) != set(keys) and not (n == 0 and not vals):
+                bad.append(z3.BoolVal(True))
+                continue
+            mx = getattr(ip, 'max_value', None)
+            for v in vals.values():
+                assume.append(v >= 0)
+                if mx is not None:
+                    assume.append(mx >= v)
+            want = zmin([vals[k_] for k_ in keys]) if n else mx
+            bad.append(z3.Not(z3.Or([pc for pc, _ in outs])))
+            for pc, r in outs:
+                bad.append(z3.And(pc, deref(r) != want) if want is not None else pc)
+        nfn += 1
+    for fn in enums:
+        for variant in ('Point', 'Line', 'LineString', 'Polygon', 'MultiPoint', 'MultiLineString', 'MultiPolygon', 'GeometryCollection', 'Rect', 'Triangle'):
+            calls = []
+
+            def dist(ip, d, calls=calls):
+                calls.append((deref(d[-2]), deref(d[-1])))
+                return T.var('fwd')
+            ip = Interp(mir, T, EXTRA, {'re:<euclidean::Euclidean as (algorithm::)?line_measures::distance::Distance<.*>>::distance': dist})
+            outs = ip.call_fn(fn, [('e',), Ref(lambda: ('origin',)), Ref(lambda variant=variant: Enum(variant, [('inner', variant)]))], z3.BoolVal(True))
+            npaths += len(outs)
+            if not (len(outs) == 1 and calls == [(('origin',), ('inner', variant))]):
+                bad.append(z3.BoolVal(True))
+        nfn += 1
+    st, info, model = check_unsat('multi_member_distance_is_min_over_members', assume + [z3.Or(bad)])
+    info['impls_checked'] = nfn
+    return dict(theory='Real; members opaque, nested distances uninterpreted', functions=['%d macro-generated Distance impls for Multi* / GeometryCollection first operands' % len(multis), '%d Distance impls with a Geometry second operand' % len(enums)], paths=npaths, status=st, info=info, model=None, replay=('polygon_distance', ''))
+
+
 # ---- C08: which two points quick_hull takes as the extremes, and what it recurses on
 
 @obligation('C08', 'quick_hull_extreme_selection', 'quick_hull on 4-6 opaque points, for EVERY pair of indices (i, j) that least_and_greatest_index can return: the point removed as `min` is the one at index i and the one removed as `max` is the one at index j of the ORIGINAL order (whatever the swaps did), both partitions are taken over exactly the remaining points, hull_set is called as (max, min, .) then (min, max, .), and the hull receives max then min (least_and_greatest_index, partition_slice, hull_set uninterpreted; the slice surgery of swap_with_first_and_remove translated)')
